@@ -373,3 +373,84 @@ Proof.
       assert (Edf : dirflag = false) by now apply Hdf.
       rewrite Edf. cbn [orb]. specialize (Hguard Edf). destruct c; [congruence|reflexivity].
 Qed.
+
+(* The same for absolute paths, provided they share their first component (otherwise the joined prefix is the
+   empty string, which is not an absolute path: known finding commonprefix-absolute-root-only).  Here split() of
+   every input starts with the empty string that stands for the leading separator. *)
+Theorem commonprefix_spec_abs p0 rest c0 :
+  (forall p, In p (p0 :: rest) -> wfp p) ->
+  (forall p, In p (p0 :: rest) -> p_root p = p_root p0) ->
+  root_eqb (p_root p0) Absolute = true ->
+  (forall p, In p (p0 :: rest) -> exists t, p_comps p = c0 :: t) ->
+  exists r, commonprefix (p0 :: rest) = Some (Some r) /\ wfp r /\ p_root r = p_root p0 /\ p_destdir r = false /\
+    (forall p, In p (p0 :: rest) -> prefix (p_comps r) (p_comps p)) /\
+    (forall d, (forall p, In p (p0 :: rest) -> prefix d (p_comps p)) -> prefix d (p_comps r)) /\
+    (p_dir r = false <-> forall p, In p (p0 :: rest) -> p_comps p = p_comps p0).
+Proof.
+  intros Hwf Hroot Habs Hc0.
+  unfold commonprefix.
+  assert (E1 : existsb (fun p => negb (root_eqb (p_root p) (p_root p0))) (p0 :: rest) = false).
+  { destruct (existsb (fun p => negb (root_eqb (p_root p) (p_root p0))) (p0 :: rest)) eqn:E; [|reflexivity].
+    apply existsb_exists in E. destruct E as (p & Hp & E).
+    rewrite (Hroot p Hp), root_eqb_refl in E. discriminate. }
+  rewrite E1.
+  assert (Esp : forall p, In p (p0 :: rest) -> split p = [] :: p_comps p).
+  { intros p Hp. rewrite (split_wf p (Hwf p Hp)).
+    rewrite (wfp_slashes_abs p (Hwf p Hp)) by (rewrite (Hroot p Hp); exact Habs).
+    destruct (Hc0 p Hp) as [t ->]. reflexivity. }
+  assert (E2 : map split rest = map (fun p => [] :: p_comps p) rest).
+  { apply map_ext_in. intros p Hp. apply Esp. now right. }
+  rewrite E2, (Esp p0 (or_introl eq_refl)).
+  set (x := [] :: p_comps p0). set (l := map (fun p => [] :: p_comps p) rest).
+  assert (Hin : forall p, In p (p0 :: rest) -> In ([] :: p_comps p) (x :: l)).
+  { intros p [<-|Hp]; [now left|right]. unfold l. apply in_map_iff. exists p. auto. }
+  assert (Hin' : forall y, In y (x :: l) -> exists p, In p (p0 :: rest) /\ [] :: p_comps p = y).
+  { intros y [<-|Hy]; [exists p0; split; [now left|reflexivity]|].
+    unfold l in Hy. apply in_map_iff in Hy. destruct Hy as (p & <- & Hp). exists p. split; [now right|reflexivity]. }
+  destruct (list_min_spec l x) as [Hmi Hmin]. destruct (list_max_spec l x) as [Hma Hmax].
+  destruct (lcp_min_max x l) as [Hpre Hgr].
+  set (lo := list_min x l) in *. set (hi := list_max x l) in *.
+  destruct (cp_loop_lcp lo hi (Hmin hi Hma)) as (f & -> & Hf1 & Hf2).
+  (* the common prefix starts with the empty string and the shared first component *)
+  assert (Hhead : prefix [[]; c0] (lcp lo hi)).
+  { apply Hgr. intros y Hy. destruct (Hin' y Hy) as (p & Hp & <-). destruct (Hc0 p Hp) as [t ->].
+    exists t. reflexivity. }
+  destruct Hhead as [t Ht]. cbn [app] in Ht. rewrite Ht in *.
+  set (c' := c0 :: t) in *.
+  assert (Hcx : prefix c' (p_comps p0)).
+  { assert (P := Hpre x (or_introl eq_refl)). unfold x in P. apply prefix_cons_inv in P. tauto. }
+  assert (Hnc : normal c') by (eapply normal_prefix; [exact Hcx|apply (wf_normal p0), Hwf; now left]).
+  assert (Hall : lo = hi -> forall y, In y (x :: l) -> y = lo).
+  { intros Heq y Hy. apply sle_antisym; [rewrite Heq; now apply Hmax|now apply Hmin]. }
+  set (dirflag := if f then negb (strs_eqb lo hi) else true).
+  assert (Hdf : dirflag = false <-> lo = hi).
+  { unfold dirflag. split.
+    - destruct f; [|discriminate]. rewrite negb_false_iff. apply strs_eqb_eq.
+    - intros Heq. rewrite (Hf1 Heq). apply negb_false_iff. now apply strs_eqb_eq. }
+  match goal with |- context [mk ?s ?a ?b ?d] =>
+    assert (Hmk : mk s a b d = Some {| p_root := Absolute; p_drive := []; p_slashes := 1; p_comps := c';
+                                       p_dir := truthy (Some dirflag) || is_nil c'; p_destdir := truthy None |})
+  end.
+  { apply (mk_render (p_root p0) 1 c' None (Some dirflag) (Nat.le_refl 1) Hnc);
+      [discriminate|discriminate|intros H; discriminate H|intros _; discriminate]. }
+  rewrite Hmk.
+  eexists. split; [reflexivity|]. cbn [p_root p_comps p_dir p_destdir Nat.ltb Nat.leb truthy].
+  split; [|split; [symmetry; now apply root_eqb_eq|split; [reflexivity|split; [|split]]]].
+  - apply wfp_intro; [lia|exact Hnc|discriminate|reflexivity|discriminate|discriminate].
+  - intros p Hp. assert (P := Hpre _ (Hin p Hp)). apply prefix_cons_inv in P. tauto.
+  - intros d Hd. assert (P : prefix ([] :: d) ([] :: c')).
+    { apply Hgr. intros y Hy. destruct (Hin' y Hy) as (p & Hp & <-). apply prefix_cons. now apply Hd. }
+    apply prefix_cons_inv in P. tauto.
+  - change (is_nil c') with false. rewrite orb_false_r. split.
+    + intros Hd.
+      assert (Edf : dirflag = false) by (destruct dirflag; [discriminate Hd|reflexivity]).
+      apply Hdf in Edf. intros p Hp.
+      assert (A := Hall Edf _ (Hin p Hp)). assert (B := Hall Edf x (or_introl eq_refl)). unfold x in B.
+      rewrite <- B in A. now inversion A.
+    + intros Heq.
+      assert (Hlx : lo = x). { destruct (Hin' lo Hmi) as (p & Hp & <-). unfold x. now rewrite (Heq p Hp). }
+      assert (Hhx : hi = x). { destruct (Hin' hi Hma) as (p & Hp & <-). unfold x. now rewrite (Heq p Hp). }
+      assert (Hlh : lo = hi) by congruence.
+      assert (Edf : dirflag = false) by now apply Hdf.
+      now rewrite Edf.
+Qed.
